@@ -212,3 +212,12 @@ pub fn run(tier: &str, seed: u64, s: &mut Sink) {
         emit(s, "random80", &r.bytes(80));
     }
 }
+
+/// implementation observation for a case line of this module (None: not one of mine)
+pub fn observe_line(line: &str) -> Option<String> {
+    let (tag, rest) = line.split_once(' ').unwrap_or((line, "-"));
+    match tag {
+        "trg" => Some(observe(&crate::util::unhex(rest))),
+        _ => None,
+    }
+}
